@@ -41,7 +41,7 @@ def sorted_ids_from_units():
               pre='impl vstd::std_specs::convert::FromSpecImpl<Option<u64>> for SortedIds { open spec fn obeys_from_spec() -> bool { false } open spec fn from_spec(v: Option<u64>) -> Self { arbitrary() } }\n',
               wrap=('impl From<Option<u64>> for SortedIds {', '}'),
               header='''fn from(id: Option<u64>) -> (r: Self)
-        ensures r.0@ == okey(id),''',
+        ensures r.0@ == okey(id), r.0@ == skey(okey(id)), sorted_seq(r.0@),''',
               rsubs=[(r'id\.into_iter\(\)\.collect\(\)', 'let __r = SortedIds::from_iter(opt_into_vec(id)); proof { lemma_okey(id); } __r', 1)])
     return [fi, fo]
 
@@ -59,7 +59,7 @@ def quadratic_terms():
         ensures sitems(r@) == quad_titems(*self), keys_sorted(r@),''',
                 pipes=[r'(?s)let quad = (\(0\.\.n\)\.map\(.*?\));\s*if let'],
                 rsubs=[(r'assert_eq!\(([^;]*?), ([^;]*?)\);', r'vassert_eq(\1, \2);', 2),
-                       (r'id\.into_iter\(\)\.collect\(\)', 'SortedIds::from_iter(opt_into_vec(id))', 1),
+                       (r'id\.into_iter\(\)\.collect\(\)', 'SortedIds::from_iter(opt_into_vec(id))', None),
                        (r'(?s)let quad = \{ let __p1 = (.*?); __p1 \};', r'let quad = \1; proof { assert(sitems(quad@) =~= qpart(*self)) by { assert forall|i: int| 0 <= i < quad.len() implies #[trigger] sitems(quad@)[i] == qpart(*self)[i] by { lemma_pair_key(self.columns[i], self.rows[i]); } } assert forall|j: int| 0 <= j < quad.len() implies sorted_seq((#[trigger] quad[j]).0.0@) by { lemma_pair_key(self.columns[j], self.rows[j]); } }', 1)],
                 closures=[dict(params='i', typed='i: usize', ret='(SortedIds, F64)', requires='i < self.columns.len() && i < self.rows.len() && i < self.values.len()',
                                ensures='ret.1 == self.values[i as int] && ret.0.0@ == skey(seq![self.columns[i as int], self.rows[i as int]])'),
@@ -82,8 +82,8 @@ def function_terms():
         requires fn_coo_ok(*self),
         ensures fn_titems_ok(r@, *self), keys_sorted(r@),''',
                 pipes=[],
-                rsubs=[(r'id\.into\(\)', 'SortedIds::from(id)', 1),
-                       (r'let __p1 = vec_once\(\(SortedIds::empty\(\), \*c\)\); __p1', 'let __p1 = vec_once((SortedIds::empty(), *c)); proof { assert(sitems(__p1@) =~= seq![(Seq::<u64>::empty(), *c)]); } __p1', 1)],
+                rsubs=[(r'id\.into\(\)', 'SortedIds::from(id)', None),
+                       (r'let __p1 = vec_once\((.*?)\); __p1', r'let __p1 = vec_once(\1); proof { assert(sitems(__p1@) =~= seq![(Seq::<u64>::empty(), *c)]); } __p1', 1)],
                 closures=[dict(params='(id, c)', typed='__e: (Option<u64>, F64)', ret='(SortedIds, F64)', bind='let id = __e.0; let c = __e.1;', ensures='ret.1 == __e.1 && ret.0.0@ == okey(__e.0)')],
                 proofs=[(('before', r'__p3 \}'), '''proof {
                     let lk = lkeyed(*linear);
@@ -146,7 +146,7 @@ def polynomial_from_units():
         ensures linear_fin(l) ==> plists(r, lmap(l)),
             polynomial_ids(r).subset_of(linear_ids(l)), keys_sorted_p(r),''',
                pipes=[r'(?s)^\{\s*(.*)\.collect\(\)\s*\}\s*$'],
-               rsubs=[(r'id\.into_iter\(\)\.collect\(\)', 'SortedIds::from_iter(opt_into_vec(id))', 1),
+               rsubs=[(r'id\.into_iter\(\)\.collect\(\)', 'SortedIds::from_iter(opt_into_vec(id))', None),
                       (r'(?s)^\{\s*\{ (.*) __p2 \}\s*\.collect\(\)\s*\}\s*$', r'{ \1 let __r = Polynomial::from_iter(__p2); __r }', 1)],
                closures=[KEYED],
                proofs=[(('before', r'__r \}\s*$'), '''proof {
